@@ -2,10 +2,10 @@
 (* Two DIFFERENT keys of one backend (tool/src/config.rs Config::set, the backends' own `set`: demo_gen/mod.rs, kotlin/mod.rs).  *)
 (* Each of the three sources may assign either key, both or none; sources are applied in precedence order.  The effective value   *)
 (* of a key is that of the last source that assigns THAT key: assigning one key never changes, resets or defaults another.        *)
-EXTENDS Naturals, Sequences, FiniteSets, TLC, Json
+EXTENDS Naturals, Sequences, FiniteSets
 None == "<unset>"
 Source == <<"file", "cli", "attr">>
-Key == {"k1", "k2"}
+CONSTANT Key       \* the keys of one backend (the replay uses two)
 VARIABLES sets,      \* sets[s]: the keys source s assigns (the value it gives is the source's name)
           pcnt, cur, eff
 vars == <<sets, pcnt, cur, eff>>
@@ -18,7 +18,6 @@ Next == Apply \/ Resolve
 Spec == Init /\ [][Next]_vars
 LastWriter(k) == IF k \in sets["attr"] THEN "attr" ELSE IF k \in sets["cli"] THEN "cli" ELSE IF k \in sets["file"] THEN "file" ELSE None
 KeysIndependent == pcnt = 5 => \A k \in Key : eff[k] = LastWriter(k)
-Emit == pcnt = 5 => PrintT(<<"CASE", ToJson([sets |-> sets, eff |-> eff])>>)
 \* negative model: a setter of k2 that also (re)initialises k1
 ApplyWipe == /\ pcnt <= 3
              /\ cur' = [k \in Key |-> IF k \in sets[Source[pcnt]] THEN Source[pcnt]
